@@ -72,11 +72,14 @@ func New[K ~string, V any](expTime, cleanupTime time.Duration) *Cache[K, V] {
 // Set inserts a new item into the cache, but first verifies if an item with the same key already exists in the cache.
 // In case an item with the specified key already exists in the cache it will return an error.
 func (c *Cache[K, V]) Set(key K, val V, d time.Duration) error {
-	item, err := c.Get(key)
+	c.mu.Lock()
+	defer c.mu.Unlock()
+
+	item, err := c.get(key)
 	if item != nil && err == nil {
 		return fmt.Errorf("item with key '%v' already exists. Use the Update method", key)
 	}
-	c.add(key, val, d)
+	c.put(key, val, d)
 
 	return nil
 }
@@ -90,6 +93,14 @@ func (c *Cache[K, V]) SetDefault(key K, val V) error {
 // If the duration is 0 (or DefaultExpiration) the cache default expiration time is used.
 // If the duration is < 0 (or NoExpiration), the item never expires and should be removed manually.
 func (c *Cache[K, V]) add(key K, val V, d time.Duration) error {
+	c.mu.Lock()
+	defer c.mu.Unlock()
+
+	return c.put(key, val, d)
+}
+
+// put has a local scope only, the caller holds the write lock.
+func (c *Cache[K, V]) put(key K, val V, d time.Duration) error {
 	var exp int64
 
 	if d == DefaultExpiration {
@@ -101,7 +112,7 @@ func (c *Cache[K, V]) add(key K, val V, d time.Duration) error {
 		exp = int64(NoExpiration)
 	}
 
-	item, err := c.Get(key)
+	item, err := c.get(key)
 	if item != nil && err != nil {
 		return fmt.Errorf("item with key '%v' already exists", key)
 	}
@@ -113,12 +124,10 @@ func (c *Cache[K, V]) add(key K, val V, d time.Duration) error {
 		}
 	}
 
-	c.mu.Lock()
 	c.items[key] = &Item[V]{
 		object:     val,
 		expiration: exp,
 	}
-	c.mu.Unlock()
 
 	return nil
 }
@@ -128,18 +137,22 @@ func (c *Cache[K, V]) add(key K, val V, d time.Duration) error {
 // when the purge method is invoked at the predefined interval.
 func (c *Cache[K, V]) Get(key K) (*Item[V], error) {
 	c.mu.RLock()
+	defer c.mu.RUnlock()
+
+	return c.get(key)
+}
+
+// get has a local scope only, the caller holds the lock.
+func (c *Cache[K, V]) get(key K) (*Item[V], error) {
 	if item, ok := c.items[key]; ok {
 		if item.expiration > 0 {
 			now := time.Now().UnixNano()
 			if now > item.expiration {
-				c.mu.RUnlock()
 				return nil, fmt.Errorf("item with key '%v' expired", key)
 			}
 		}
-		c.mu.RUnlock()
 		return item, nil
 	}
-	c.mu.RUnlock()
 	return nil, fmt.Errorf("item with key '%v' not found", key)
 }
 
